@@ -176,29 +176,14 @@ func (s *state) checkOneFragment(x, y *mp4.Fragment, fm, fl *mp4.File, ref *reff
 		c.Count("frag_fragments_with_empty_mdat", 1)
 		return
 	}
-	// lazy read of [start,start+size) with ReadData and CopyData
+	// lazy read of [start,start+size) with ReadData and CopyData: both judged against the file
 	lazyRead := func(start, size int) ([]byte, bool) {
-		var got []byte
-		var err error
-		var n int64
-		var w bytes.Buffer
-		p1 := c.Guard(func() { got, err = y.Mdat.ReadData(int64(start), int64(size), s.rs) })
-		s.rdCalls[s.rsK+" / ReadData"]++
-		c.Count("call:lazy/ReadData", 1)
-		if p1 != nil || err != nil {
-			c.Violation("frag/lazy/ReadData/sample-range/error", fmt.Sprintf("%s %s: lazy ReadData(%d,%d) of a sample range inside the mdat payload [%d,%d) fails: %v", s.name, where, start, size, ps, pe, err), det(map[string]interface{}{"start": start, "size": size}))
+		ok1 := s.dataCall("lazy", "ReadData", y.Mdat, s.rs, start, size, "sample-range", true)
+		ok2 := s.dataCall("lazy", "CopyData", y.Mdat, s.rs, start, size, "sample-range", true)
+		if !ok1 || !ok2 {
 			return nil, false
 		}
-		var err2 error
-		p2 := c.Guard(func() { n, err2 = y.Mdat.CopyData(int64(start), int64(size), s.rs, &w) })
-		s.rdCalls[s.rsK+" / CopyData"]++
-		c.Count("call:lazy/CopyData", 1)
-		s.evals += 2
-		if p2 != nil || err2 != nil || n != int64(size) || !bytes.Equal(w.Bytes(), got) {
-			c.Violation("frag/lazy/CopyData/sample-range/differs-from-ReadData", fmt.Sprintf("%s %s: lazy CopyData(%d,%d) writes %d bytes (err %v) that differ from what lazy ReadData returns for the same range", s.name, where, start, size, w.Len(), err2), det(map[string]interface{}{"start": start, "size": size}))
-			return nil, false
-		}
-		return got, true
+		return b[start : start+size], true
 	}
 
 	// ---- GetSampleInterval (single traf, single trun) ----
@@ -237,12 +222,19 @@ func (s *state) checkOneFragment(x, y *mp4.Fragment, fm, fl *mp4.File, ref *reff
 			d := func() map[string]interface{} {
 				return det(map[string]interface{}{"first_sample": iv[0], "last_sample": iv[1], "memory_offset_in_mdat": sm.OffsetInMdat, "lazy_offset_in_mdat": sl.OffsetInMdat, "memory_size": sm.Size, "lazy_size": sl.Size})
 			}
+			if (p1 != nil || e1 != nil) && p2 == nil && e2 == nil && (ps+int(sl.OffsetInMdat) < ps || ps+int(sl.OffsetInMdat)+int(sl.Size) > pe) {
+				// the moof points outside the mdat payload: in-memory mode cannot slice, lazy mode reports the
+				// (invalid) range. Not a valid sample range, so not comparable.
+				c.Count("frag_sample_intervals_outside_the_payload", 1)
+				continue
+			}
 			if (p1 != nil) != (p2 != nil) || (e1 != nil) != (e2 != nil) {
 				c.Violation("frag/GetSampleInterval/outcome-differs", fmt.Sprintf("%s %s: GetSampleInterval(%d,%d) memory: err %v panic %v; lazy: err %v panic %v", s.name, where, iv[0], iv[1], e1, p1 != nil, e2, p2 != nil), d())
 				continue
 			}
 			if p1 != nil || e1 != nil {
 				c.Count("frag_GetSampleInterval_fails_in_both_modes", 1)
+				c.Seen("frag_GetSampleInterval_both_modes_fail_with", fmt.Sprintf("%s: %s %s", s.kind, panicFrame(p1), noDigits(fmt.Sprint(e1))))
 				continue
 			}
 			if sm.OffsetInMdat != sl.OffsetInMdat || sm.Size != sl.Size || sm.FirstDecodeTime != sl.FirstDecodeTime || !reflect.DeepEqual(sm.Samples, sl.Samples) {
@@ -300,7 +292,7 @@ func (s *state) checkOneFragment(x, y *mp4.Fragment, fm, fl *mp4.File, ref *reff
 		pi := c.Guard(func() { fs, err = x.GetFullSamples(trex) })
 		s.evals++
 		if pi != nil || err != nil {
-			c.Seen("frag_memory_GetFullSamples", "fails")
+			c.Seen("frag_memory_GetFullSamples", fmt.Sprintf("fails: panic=%v %s", pi != nil, noDigits(fmt.Sprint(err))))
 			continue
 		}
 		c.Seen("frag_memory_GetFullSamples", "ok/"+shapeCls)
@@ -350,4 +342,26 @@ func (s *state) checkOneFragment(x, y *mp4.Fragment, fm, fl *mp4.File, ref *reff
 		}
 	}
 	c.Seen("frag_sample_access_shape", shapeCls)
+}
+
+func noDigits(s string) string {
+	out := make([]byte, 0, len(s))
+	for i := 0; i < len(s) && len(out) < 60; i++ {
+		if s[i] >= '0' && s[i] <= '9' {
+			if len(out) > 0 && out[len(out)-1] == '#' {
+				continue
+			}
+			out = append(out, '#')
+			continue
+		}
+		out = append(out, s[i])
+	}
+	return string(out)
+}
+
+func panicFrame(pi *runner.PanicInfo) string {
+	if pi == nil {
+		return "error"
+	}
+	return "panic in " + pi.TopFrame + " (" + noDigits(pi.Value) + ")"
 }
